@@ -1,7 +1,7 @@
 import SFV.Lemmas.ProvGuards
 /-! # C07 — the persistence-log model is what the source writes
 
-`SFV/Gen/ProvGuards.lean` is regenerated from /repo on every run by `harness/sfv/translate/provguards.py`: the column and
+`SFV/Gen/ProvRowGuards.lean` is regenerated from /repo on every run by `harness/sfv/translate/provrowguards.py`: the column and
 tuple order of `SqliteDatabase.add_provenance`, the order `token.save` / `add_provenance` in `BaseStep._persist_token` and
 its check for unpersisted inputs. These theorems stop compiling when the source stops meaning what `SFV/Model/Prov.lean`
 (the subject of `SFV/Props/C07.lean`) says. -/
